@@ -493,11 +493,24 @@ let sqlhist () : unit =
   let stmt_t i = match (getc i).sc_conn.c_wt with Some t -> t | None -> now () in
   let last_sel = ref (-1) in
   let nops = rd_int () in
+  let skip_next = ref 0 in
   for _ = 1 to nops do
     pr ";"; incr opno; incr tick;
     let cur = ref (-1) in
     last_muts := 0;
+    if !skip_next > 0 then begin
+      (* a statement that failed because of an injected storage fault: it is left out; a failed
+         COMMIT ends the transaction like ROLLBACK *)
+      let kind = next () in let i = rd_int () in
+      for _ = 3 to !skip_next do ignore (next ()) done;
+      skip_next := 0;
+      if kind = "commit" then begin
+        let (sc', _) = sql_rollback (getc i) in setc i sc'; set_pending i []
+      end;
+      pr "xerr"
+    end else
     (match next () with
+    | "F" -> let _on = next () in let _k = rd_int () in skip_next := rd_int (); pr "F"
     | "conn" -> let i = rd_int () in setc i sconn0; pr "ok"
     | "create" ->
         let i = rd_int () in cur := i; let ro = rd_bool () in
